@@ -129,7 +129,7 @@ class C02Gen(langgen.Gen):
 
     TEMPLATES = ["self_assign", "call_reassign", "returns", "nested_store", "pop_reuse", "index_overwrite",
                  "interp", "deep_rec", "churn", "param_array", "many_locals", "param_string", "shout_recycle",
-                 "returns", "call_reassign", "churn", "fn_array_result", "host", "empty_rows", "empty_rows"]
+                 "returns", "call_reassign", "churn", "fn_array_result", "host", "empty_rows", "empty_rows", "arg_reassign", "arg_reassign"]
 
     def t_self_assign(self, ind):
         pad = "  " * ind
@@ -492,6 +492,48 @@ class C02Gen(langgen.Gen):
         lines += ["%sshout(%s.len())" % (pad, row("0")), "%sshout(%s)" % (pad, b)]
         if route == 0:
             self.declare(i, NUM)
+        return lines
+
+    def t_arg_reassign(self, ind):
+        """an operand / argument read first, then a LATER operand, argument, index or method argument whose
+        evaluation reassigns (or pushes to / index-assigns) the same variable, before anything is bound"""
+        if not self.can_define_fn():
+            return None
+        r = self.r
+        pad = "  " * ind
+        x, a = self.fresh("s"), self.fresh("a")
+        gs, gn, ga, gi, f2, f2n, f3, fa = [self.fresh("f") for _ in range(8)]
+        n1, n2 = r.choice([(9, 9), (16, 10), (8, 9), (9, 8), (128, 129), (129, 128), (256, 257), (257, 256), (300, 5),
+                           (5, 300), (24, 24), (160, 161), (3, 3), (64, 200)])
+        lines = ["%smake %s get %s" % (pad, x, self.dyn(n1)),
+                 '%smake %s get [%s, "%s", %s add "y"]' % (pad, a, x, sized(r), x),
+                 "%sdo %s() start" % (pad, gs), "%s  %s get %s" % (pad, x, self.dyn(n2)), '%s  return "%s"' % (pad, sized(r, 2)), "%send" % pad,
+                 "%sdo %s() start" % (pad, gn), "%s  %s get %s" % (pad, x, self.dyn(n2)), "%s  return %d" % (pad, r.randint(0, 2)), "%send" % pad,
+                 "%sdo %s() start" % (pad, ga), "%s  %s.push(%s)" % (pad, a, self.dyn(n2)), "%s  %s[0] get %s" % (pad, a, self.dyn(n2)),
+                 "%s  return %d" % (pad, r.randint(0, 2)), "%send" % pad,
+                 "%sdo %s() start" % (pad, gi), "%s  %s get [%s, %s, %s, %s]" % (pad, a, self.dyn(n2), self.dyn(n1), self.dyn(3), self.dyn(n2)),
+                 "%s  return 1" % pad, "%send" % pad,
+                 '%sdo %s(p, q) start return p add "#" add q end' % (pad, f2),
+                 '%sdo %s(p, n) start return p add "#" add to_string(n) end' % (pad, f2n),
+                 '%sdo %s(p, q, w) start return p add q add w end' % (pad, f3),
+                 "%sdo %s(p, n) start return p end" % (pad, fa)]
+        uses = ["shout(%s(%s, %s()))" % (f2, x, gs), "shout(%s(%s, %s()))" % (f2n, x, gn),
+                "shout(%s(%s, %s(%s, %s())))" % (f2, x, f2, x, gs), "shout(%s(%s, %s(), %s))" % (f3, x, gs, x),
+                'shout(%s.replace("%s", %s()))' % (x, sized(r, 1), gs), "shout(%s.slice(%s(), 300))" % (x, gn),
+                "shout(%s.find(%s()))" % (x, gs), "shout(%s add %s())" % (x, gs), 'shout("{%s}" add %s())' % (x, gs),
+                "shout([%s, %s(), %s])" % (x, gs, x), "shout(%s add to_string(%s()))" % (x, gn),
+                "shout(%s(%s, %s()))" % (fa, a, ga), "shout(%s(%s, %s()))" % (fa, a, gi), "shout(%s[%s()])" % (a, ga),
+                "shout(%s[%s()])" % (a, gi), "%s[%s()] get %s" % (a, ga, x), "%s.push(%s add to_string(%s()))" % (a, x, ga),
+                "shout(%s.join(%s()))" % (a, gs), "shout(%s(%s[0], %s()))" % (f2n, a, ga),
+                "make %s get %s(%s, %s())" % (self.fresh("v"), f2, x, gs)]
+        for _ in range(r.randint(2, 5)):
+            u = r.choice(uses)
+            lines.append(pad + u)
+            if r.random() < 0.5:
+                lines.append("%s%s get %s" % (pad, x, self.dyn(n1)))
+        lines += ["%sshout(%s)" % (pad, x), "%sshout(%s)" % (pad, a)]
+        self.declare(x, STR)
+        self.declare(a, ARR, elem=STR, minlen=3)
         return lines
 
     def t_fn_array_result(self, ind):
@@ -919,6 +961,11 @@ def gen_shape(r):
             f = r.choice(gf)
             return [("shout", ("call", f[0], [("arr", [sexpr(1)])]))]
         rf = [f for f in fns if f[1] == "reassign" and f[2] in svars]
+        c2 = [f for f in fns if f[1] == "cat2"]
+        if rf and c2 and r.random() < 0.6:
+            f, g = r.choice(rf), r.choice(c2)
+            inner = ("call", g[0], [("var", f[2]), ("call", f[0], [])])
+            return [("shout", r.choice([inner, ("call", g[0], [("var", f[2]), inner])]))]
         if rf:
             f = r.choice(rf)
             return [("shout", ("cat", ("var", f[2]), ("call", f[0], [])))]
@@ -950,6 +997,10 @@ WITNESS_SHAPES = {
                         ("shout", ("call", "f", [("var", "s")])), ("shout", ("var", "s"))], "alias"),
     "param_array_loop": ([("fn", "f", ["p"], [("loop", "i", 3, [("push", "p", [], ("cat", ("lit", "e"), ("str", "i")))]), ("return", ("var", "p"))]),
                           ("shout", ("call", "f", [("arr", [("lit", "q")])]))], "noparam"),
+    "arg_then_reassign": ([("make", "s", ("cat", ("lit", "aa"), ("lit", "bb"))),
+                           ("fn", "g", [], [("set", "s", ("cat", ("lit", "cc"), ("lit", "dd"))), ("return", ("lit", "!"))]),
+                           ("fn", "f", ["p", "q"], [("return", ("cat", ("var", "p"), ("var", "q")))]),
+                           ("shout", ("call", "f", [("var", "s"), ("call", "g", [])])), ("shout", ("var", "s"))], "alias"),
     "empty_rows_loop": ([("make", "b", ("arr", [("arr", []), ("arr", [])])),
                          ("loop", "i", 4, [("push", "b", [0], ("cat", ("lit", "item_"), ("str", "i"))),
                                            ("push", "b", [1], ("cat", ("lit", "x"), ("str", "i")))]),
@@ -1056,6 +1107,10 @@ CORPUS = [
     ("param-array-in-frame", 'do f(p) start\n  make i get 0\n  jasi (i small pass 2) start\n    p[0].push(i)\n    i get i add 1\n  end\n  return p\nend\nshout(f([[1]]))\n'),
     ("param-array-in-frame", 'do f(a, n) start\n  make i get 0\n  jasi (i small pass 3) start\n    a.push(to_string(n) add "-" add to_string(i))\n    i get i add 1\n  end\n  if to say (n small pass 1) start return a end\n  return f(a, n minus 1)\nend\nshout(f(["r"], 4))\n'),
     ("param-array-in-frame", 'do f(a) start\n  make i get 0\n  jasi (i small pass 3) start\n    make e get a.pop()\n    a.push(e add "!")\n    a.push(e)\n    i get i add 1\n  end\n  return a\nend\nshout(f(["u" add "v"]))\n'),
+    ("argument-aliases-variable-slot", 'make label get "job_" add "alpha"\nmake count get 0\ndo next_label() start\n    count get count add 1\n    label get "job_" add "beta_" add to_string(count)\n    return count\nend\ndo describe(name, n) start\n    return name add "#" add to_string(n)\nend\nshout(describe(label, next_label()))\nshout(label)\n'),
+    ("argument-aliases-variable-slot", 'make title get "draft " add "one"\ndo retitle() start\n    title get "a considerably longer final title " add "two"\n    return 2\nend\ndo describe(name, n) start\n    return name add "#" add to_string(n)\nend\nshout(describe(title, retitle()))\nshout(title)\n'),
+    ("argument-aliases-variable-slot", 'make s get "abcdefgh" add "i"\ndo g() start s get "ABCDEFGH" add "I" return "!" end\ndo f(p, q) start return p add q end\ndo h(p, q, w) start return p add q add w end\nshout(f(s, f(s, g())))\nshout(h(s, g(), s))\nshout(s.replace("a", g()))\nshout([s, g(), s])\nshout("{s}" add g())\nshout(s)\n'),
+    ("argument-aliases-variable-slot", 'make a get ["x" add "y", "lit"]\ndo g() start a.push("p" add "q") a[0] get "r" add "s" return 1 end\ndo f(p, n) start return p end\nshout(f(a, g()))\nshout(a[g()])\nshout(f(a[0], g()))\na[g()] get a[0] add "!"\nshout(a)\n'),
     ("nested-empty-row-frame-allocator", 'make buckets get [[], [], []]\nmake i get 0\njasi (i small pass 9) start\n    buckets[i mod 3].push("item_{i}")\n    i get i add 1\nend\nshout(buckets[0].len())\nshout(buckets)\n'),
     ("nested-empty-row-frame-allocator", 'make table get [[], []]\ndo add_row(label) start\n    table[0].push(label add "-a")\n    table[1].push(label add "-b")\nend\nadd_row("x")\nadd_row("y")\nshout(table[0].len())\nshout(table)\n'),
     ("nested-empty-row-frame-allocator", 'make m get []\nm.push([])\nm.push([[]])\nmake i get 0\njasi (i small pass 5) start\n  m[0].push("a" add to_string(i))\n  m[1][0].push(i)\n  make t get [i, i, i, i, i, i]\n  i get i add 1\nend\nshout(m)\n'),
@@ -1077,6 +1132,8 @@ CORPUS = [
 
 def classify(src):
     """stable key of a failing program (after shrinking)"""
+    if re.search(r"\w+\(\s*\w+\s*,\s*(?:\w+\([^()]*,\s*)?\w+\(\s*\)", src) and len(src.splitlines()) <= 14 and ".push(" not in src:
+        return "argument-aliases-variable-slot"
     if re.search(r"\[\s*\]", src) and re.search(r"\]\s*\.push\(", src) and not re.search(r"do\s+\w+\(\s*\w", src):
         return "nested-empty-row-frame-allocator"
     for m in re.finditer(r"do\s+\w+\(([^)]*)\)\s+start", src):
